@@ -248,6 +248,13 @@ func (w *Worktree) Checkout(opts *CheckoutOptions) error {
 		}
 	}
 
+	// Everything that can be found wrong with the target is found before the
+	// branch is created and HEAD is moved: a refused checkout must leave
+	// everything as it was.
+	if err := w.validateCheckoutTarget(opts); err != nil {
+		return err
+	}
+
 	if opts.Create {
 		if err := w.createBranch(opts); err != nil {
 			return err
@@ -291,6 +298,42 @@ func (w *Worktree) Checkout(opts *CheckoutOptions) error {
 	}
 
 	return w.Reset(ro)
+}
+
+// validateCheckoutTarget resolves the commit a checkout is about to switch
+// to, and the sparse directories within it, without changing anything.
+func (w *Worktree) validateCheckoutTarget(opts *CheckoutOptions) error {
+	probe := *opts
+	if opts.Create {
+		if _, err := w.r.Storer.Reference(opts.Branch); err == nil {
+			// createBranch reports the existing branch.
+			return nil
+		}
+		if opts.Hash.IsZero() {
+			head, err := w.r.Head()
+			if err != nil {
+				return err
+			}
+			probe.Hash = head.Hash()
+		}
+	}
+
+	c, err := w.getCommitFromCheckoutOptions(&probe)
+	if err != nil {
+		return err
+	}
+
+	if len(opts.SparseCheckoutDirectories) > 0 {
+		t, err := w.r.getTreeFromCommitHash(c)
+		if err != nil {
+			return err
+		}
+		if !treeContainsDirs(t, opts.SparseCheckoutDirectories) {
+			return ErrSparseResetDirectoryNotFound
+		}
+	}
+
+	return nil
 }
 
 func (w *Worktree) createBranch(opts *CheckoutOptions) error {
